@@ -62,11 +62,13 @@ def isDoubleDot (b : List Nat) : Bool :=
 def emptyHost : Host := { kind := .empty, text := [] }
 
 /-- one run of the state machine; `c` = code point at the pointer (none = EOF), `rem` = remaining -/
-def step (idna : Idna) (inp : List Nat) (base : Option Url) (ov : Option State) (k : Cfg) : StepResult :=
+def step (idna : Idna) (inp : Array Nat) (base : Option Url) (ov : Option State) (k : Cfg) : StepResult :=
   let url := k.url
   let c : Option Nat := if k.p < 0 then none else inp[k.p.toNat]?
-  let rem : List Nat := inp.drop (k.p.toNat + 1)
-  let fromP : List Nat := inp.drop k.p.toNat
+  /- `remHead` = first code point of "remaining"; `fromP ()` = the input from the pointer on
+     (only the file states look further ahead than one code point) -/
+  let remHead : Option Nat := if k.p + 1 < 0 then none else inp[(k.p + 1).toNat]?
+  let fromP (_ : Unit) : List Nat := (inp.extract k.p.toNat inp.size).toList
   let isC (x : Nat) : Bool := c == some x
   match k.state with
   | .schemeStart =>
@@ -95,7 +97,7 @@ def step (idna : Idna) (inp : List Nat) (base : Option Url) (ov : Option State) 
             else if isSpecial url ∧ (base.map (·.scheme)) = some url.scheme then
               .continue { k with state := .specialRelativeOrAuthority }
             else if isSpecial url then .continue { k with state := .specialAuthoritySlashes }
-            else if rem.head? = some 0x2F then .continue { k with state := .pathOrAuthority, p := k.p + 1 }
+            else if remHead = some 0x2F then .continue { k with state := .pathOrAuthority, p := k.p + 1 }
             else .continue { k with url := { url with hasOpaquePath := true, opaquePath := [] }, state := .opaquePath }
       else if ov.isNone then .continue { k with buffer := [], state := .noScheme, p := -1 }
       else .failure url
@@ -113,7 +115,7 @@ def step (idna : Idna) (inp : List Nat) (base : Option Url) (ov : Option State) 
       else if b.scheme ≠ sFile then .continue { k with state := .relative, p := k.p - 1 }
       else .continue { k with state := .file, p := k.p - 1 }
   | .specialRelativeOrAuthority =>
-    if isC 0x2F ∧ rem.head? = some 0x2F then .continue { k with state := .specialAuthorityIgnoreSlashes, p := k.p + 1 }
+    if isC 0x2F ∧ remHead = some 0x2F then .continue { k with state := .specialAuthorityIgnoreSlashes, p := k.p + 1 }
     else .continue { k with state := .relative, p := k.p - 1 }
   | .pathOrAuthority =>
     if isC 0x2F then .continue { k with state := .authority }
@@ -144,7 +146,7 @@ def step (idna : Idna) (inp : List Nat) (base : Option Url) (ov : Option State) 
         .continue { k with url := { url with username := b.username, password := b.password, host := b.host, port := b.port },
                            state := .path, p := k.p - 1 }
   | .specialAuthoritySlashes =>
-    if isC 0x2F ∧ rem.head? = some 0x2F then .continue { k with state := .specialAuthorityIgnoreSlashes, p := k.p + 1 }
+    if isC 0x2F ∧ remHead = some 0x2F then .continue { k with state := .specialAuthorityIgnoreSlashes, p := k.p + 1 }
     else .continue { k with state := .specialAuthorityIgnoreSlashes, p := k.p - 1 }
   | .specialAuthorityIgnoreSlashes =>
     if ¬ isC 0x2F ∧ ¬ isC 0x5C then .continue { k with state := .authority, p := k.p - 1 }
@@ -214,7 +216,7 @@ def step (idna : Idna) (inp : List Nat) (base : Option Url) (ov : Option State) 
           else if isC 0x23 then .continue { k with url := { url with fragment := some [] }, state := .fragment }
           else if c.isSome then
             let url := { url with query := none }
-            let url := if !startsWithWindowsDriveLetter fromP then shorten url else { url with path := [] }
+            let url := if !startsWithWindowsDriveLetter (fromP ()) then shorten url else { url with path := [] }
             .continue { k with url := url, state := .path, p := k.p - 1 }
           else .continue { k with url := url }
         else .continue { k with url := url, state := .path, p := k.p - 1 }
@@ -226,7 +228,7 @@ def step (idna : Idna) (inp : List Nat) (base : Option Url) (ov : Option State) 
         | some b =>
           if b.scheme = sFile then
             let url := { url with host := b.host }
-            if !startsWithWindowsDriveLetter fromP ∧
+            if !startsWithWindowsDriveLetter (fromP ()) ∧
                (match b.path.head? with | some s => isNormalizedWindowsDriveLetter s | none => false) = true then
               { url with path := url.path ++ [b.path.head!] }
             else url
@@ -298,19 +300,19 @@ def step (idna : Idna) (inp : List Nat) (base : Option Url) (ov : Option State) 
 
 /-- "Keep running the state machine by switching on state. If after a run pointer points to the EOF code
     point, go to the next step. Otherwise, increase pointer by 1 and continue." -/
-def run (idna : Idna) (inp : List Nat) (base : Option Url) (ov : Option State) : Nat → Cfg → Option Url × Url
+def run (idna : Idna) (inp : Array Nat) (base : Option Url) (ov : Option State) : Nat → Cfg → Option Url × Url
   | 0, k => (none, k.url)
   | fuel+1, k =>
     match step idna inp base ov k with
     | .done u => (some u, u)
     | .failure u => (none, u)
     | .continue k' =>
-      if k'.p ≥ (inp.length : Int) then (some k'.url, k'.url)
+      if k'.p ≥ (inp.size : Int) then (some k'.url, k'.url)
       else run idna inp base ov fuel { k' with p := k'.p + 1 }
 
 /-- basic URL parser on the preprocessed input (leading/trailing C0-or-space stripped when no url is
     given, ASCII tab/newline removed).  Returns (some url | none for failure, url as left behind). -/
 def basicParse (idna : Idna) (inp : List Nat) (base : Option Url) (url : Url) (ov : Option State) : Option Url × Url :=
-  run idna inp base ov (4 * inp.length + 16) { url := url, state := ov.getD .schemeStart }
+  run idna inp.toArray base ov (4 * inp.length + 16) { url := url, state := ov.getD .schemeStart }
 
 end Upa.Spec
